@@ -11,6 +11,7 @@ import itertools
 from hypothesis import strategies as st
 
 from vlib import world as W
+from vlib import simbus
 from vlib import refcodec as R
 
 SA_S = 0x28
@@ -44,6 +45,10 @@ def _strategy():
         "cycle_mode": st.sampled_from(["long", "long", "short"]),
         "nsub": st.integers(1, 2),
         "stop_mode": st.sampled_from(["app", "app", "in_callback"]),
+        # the sending Dm1 object also subscribes (one object for both directions) while a foreign node sends DM1 too, and the
+        # application hands out the SAME lamp dict object every cycle (built once from the first cycle's lamps)
+        "also_rx": st.sampled_from([False, False, True]),
+        "persistent": st.booleans(),
         "sa": st.sampled_from([0x28, 0x28, 0x00, 0x01, 0xCA, 0xFD]),
         "lat": st.lists(st.sampled_from([1e-6, 0.0002, 0.001, 0.005]), min_size=1, max_size=2),
         "eps": st.lists(st.sampled_from([0.0, 1e-5, 1e-3]), min_size=1, max_size=2),
@@ -59,7 +64,7 @@ class C16:
             "625 lamp combinations, DM22 request bytes for boundary SPNs x all 32 FMI x both request kinds; end-to-end cases are "
             "drawn by Hypothesis: layer, 1-4 cycles each with a lamp dict (any subset of pl/awl/rsl/mil, states 0..4) and 1..400 "
             "trouble codes (classes 1 / 2-3 / 14-16 / 100 / 400), cycle time above ('long', every cycle must arrive) or below "
-            "('short', every received value must have been supplied, no more often than supplied) the transfer duration, 1-2 subscribers, then "
+            "('short', every received value must have been supplied, no more often than supplied) the transfer duration, 1-2 subscribers, in one case of three the sending Dm1 object also subscribes while a foreign node sends DM1 in between and the application hands out one persistent lamp dict, then "
             "stop_send and three further cycle times of silence; non-trivial (e2e) = at least one multi-frame DM1 was received; "
             "every codec block is non-trivial; distinct = distinct blocks / parameter sets")
     ASSUMPTIONS = [
@@ -180,13 +185,21 @@ class C16:
                 rd.subscribe((lambda i=i: (lambda sa, lamps, dtcs, ts: got[i].append((w.sim.now, sa, dict(lamps), [dict(d) for d in dtcs]))))())
             supplied = []
             idx = [0]
+            own_rx = []
+            keep = dict(p["cycles"][0]["lamps"])          # the application's own, persistent lamp dict
+            keep0 = dict(keep)
+            if p.get("also_rx"):
+                dm1.subscribe(lambda sa, lamps, dtcs, ts: own_rx.append((w.sim.now, sa, dict(lamps))))
+                foreign = simbus.RawNode(w.bus, "F")
+                f_lamps = {"pl": 1, "awl": 2, "rsl": 3, "mil": 1}
+                f_data = bytes(R.dm1_payload(f_lamps, [{"spn": 1208, "fmi": 3, "oc": 5}]))
 
             stopped_in_cb = []
 
             def cb():
                 c = p["cycles"][idx[0] % len(p["cycles"])]
                 idx[0] += 1
-                lamps = dict(c["lamps"])
+                lamps = keep if (p.get("also_rx") and p.get("persistent")) else dict(c["lamps"])
                 dtcs = dtcs_for(c["seed"], c["n"])
                 supplied.append((w.sim.now, dict(lamps), [dict(d) for d in dtcs]))
                 if p.get("stop_mode") == "in_callback" and idx[0] == stop_at and not stopped_in_cb:
@@ -208,6 +221,9 @@ class C16:
             ncyc = len(p["cycles"]) if p["cycle_mode"] == "long" else len(p["cycles"]) + 2
             stop_at = ncyc
             dm1.start_send(cb, cycle)
+            if p.get("also_rx"):
+                for kf in range(ncyc):
+                    w.at(w.sim.now - w.t0 + cycle * (kf + 0.5), lambda: foreign.send(R.mk_id(6, 0, 0xFE, 0xCA, 0x77), f_data))
             w.run_for(cycle * ncyc + cycle * 0.5)
             if stopped_in_cb:
                 t_stop = stopped_in_cb[0]
@@ -237,11 +253,23 @@ class C16:
         if n_supplied_at_stop < ncyc and not live:
             V("cycle-skipped", "the DM1 data callback was asked %d time(s) in %d cycles of %.3f s before stop_send (cyclic sending "
               "ended by itself)" % (n_supplied_at_stop, ncyc, cycle), site)
+        if p.get("also_rx") and p.get("persistent"):
+            # (the library may fill in defaults for lamps the application left out - that does not change what is supplied)
+            if norm(keep, [])[0] != norm(keep0, [])[0]:
+                V("lamp-dict-overwritten", "the lamp dict object the application's callback hands out every cycle was changed by the "
+                  "library from %r to %r (a DM1 received from another node was written into it)" % (keep0, keep), site)
+            # what the application supplies is its own, unchanged lamp state
+            supplied = [(t_, dict(keep0), d_) for (t_, l_, d_) in supplied]
+        if p.get("also_rx") and not any(sa == 0x77 for (_, sa, _) in own_rx) and not live:
+            V("own-subscriber-missed-foreign-dm1", "the sending Dm1 object's own subscriber got %d DM1 from the foreign node" %
+              len(own_rx), site)
         sup = [norm(l, d) for (_, l, d) in supplied[:n_supplied_at_stop]]
         if len(supplied) > n_supplied_at_stop:
             V("callback-after-stop", "the DM1 data callback was invoked %d time(s) after stop_send returned" %
               (len(supplied) - n_supplied_at_stop), site)
         for i, g in enumerate(got):
+            if p.get("also_rx"):
+                g = [x for x in g if x[1] != 0x77]          # the foreign node's DM1 is not the sender's
             rec = [norm(l, [dict(spn=x["spn"], fmi=x["fmi"], oc=x["oc"]) for x in d]) for (_, sa, l, d) in g]
             if any(sa != SA_S for (_, sa, _, _) in g):
                 V("dm1-wrong-source", "subscriber %d got DM1 from %r" % (i, [sa for (_, sa, _, _) in g][:3]), site)
